@@ -90,11 +90,27 @@ func planC09(tier string, root *simcore.RNG) *plan {
 			conc = 2 + r.Intn(2)
 		}
 		var g []Job
+		sameSink := conc > 1 && r.Intn(2) == 0 // concurrent writers of one format share that writer's code and globals
+		firstSink := ""
 		for k := 0; k < conc; k++ {
 			id++
 			s := pick(r, cat)
 			if len(mcu) > 0 && r.Intn(2) == 0 {
 				s = pick(r, mcu)
+			}
+			if sameSink && k > 0 {
+				var same []c09sig
+				for _, c := range cat {
+					if c.sink == firstSink {
+						same = append(same, c)
+					}
+				}
+				if len(same) > 0 {
+					s = pick(r, same)
+				}
+			}
+			if k == 0 {
+				firstSink = s.sink
 			}
 			g = append(g, s.job(id))
 		}
@@ -117,7 +133,7 @@ func planC09(tier string, root *simcore.RNG) *plan {
 		sc.Sites["eval.post"] = mod
 		sc.Sites["write"] = pick(r, []uint32{1, 4, 32})
 		sc.Sites["close"] = 1
-		for _, h := range []string{"mc.sent", "cons.tri", "cons.stl", "cons.stl.flush", "cons.3mf", "cons.3mf.encode", "cons.dxf", "cons.dxf.save", "cons.svg", "cons.svg.save"} {
+		for _, h := range []string{"go.start", "worker.start", "mc.sent", "cons.tri", "cons.stl", "cons.stl.flush", "cons.3mf", "cons.3mf.encode", "cons.dxf", "cons.dxf.save", "cons.svg", "cons.svg.save"} {
 			if r.Intn(4) != 0 {
 				sc.Sites[h] = 1
 			}
@@ -127,6 +143,11 @@ func planC09(tier string, root *simcore.RNG) *plan {
 			victims = append(victims, fmt.Sprintf("job:%d", id), fmt.Sprintf("job:%d", id-1))
 		}
 		sc.Sched = genSched(r, victims)
+		// concurrent renders: half of them on the -race build, where sharing
+		// between the jobs' goroutines is judged by happens-before as well
+		if conc > 1 && r.Intn(3) != 0 {
+			sc.Env.Race = true
+		}
 		pl.scenarios = append(pl.scenarios, sc)
 	}
 	pl.extra = map[string]any{"signatures": len(cat), "canonical_runs": len(cat)}
@@ -141,6 +162,7 @@ func planC09(tier string, root *simcore.RNG) *plan {
 		"model construction order inside a process is fixed by the episode script (the Bezier profile is built first; sdfRand is process-global)",
 		"evaluations are parked at the SDF3/SDF2 interface seam; interleavings inside a single Evaluate are not explored here (C10)",
 		"runtime.NumCPU() cannot exceed the host's 16 cores",
+		"half of the episodes with concurrent renders run on the -race build: a race report whose access is in sdfx code is a violation (two renders sharing state), reports inside third-party libraries are counted but not judged",
 	}
 	pl.real = []string{"all renderers incl. the process-global worker pool and evalProcessCh", "all five sinks and their writer goroutines", "file system"}
 	pl.stubs = []string{"goroutine scheduling choice (simulator)", "pass-through Evaluate wrappers that park the caller"}
